@@ -901,14 +901,17 @@ class ArgumentParser(ParserDeprecations, ActionsContainer, ArgumentLinking, argp
 
         if fsspec_support:
             try:
-                path_sw = Path(path, mode="sw")
+                path_sc = Path(path, mode="sc")  # not "sw": that probes an fsspec path by opening it for writing
             except TypeError:
                 pass
             else:
-                if path_sw.is_fsspec:
+                if path_sc.is_fsspec:
                     if multifile:
                         raise NotImplementedError(f"multifile=True not supported for fsspec paths: {path}")
                     fsspec = import_fsspec("ArgumentParser.save")
+                    fs, fs_path = fsspec.core.url_to_fs(path_sc.absolute)
+                    if not overwrite and fs.isfile(fs_path):
+                        raise ValueError(f"Refusing to overwrite existing file: {path_sc.absolute}")
                     with fsspec.open(path, "w") as f:
                         f.write(self.dump(cfg, **dump_kwargs))  # type: ignore[arg-type]
                     return
